@@ -23,6 +23,9 @@ class Engine:
         self.clock = 0.0
         self.wire = []
         self.calls = []
+        self.releases = 0
+        self.on_release = None
+        self._in_adversary = False
         self.interp = Interp(repo, max_depth=10)
         self.interp.call_hook = self._hook
 
@@ -41,6 +44,19 @@ class Engine:
         nm = getattr(callee, "name", "")
         if nm == "time.monotonic":
             return self.clock
+        if nm in ("threading.Lock", "threading.RLock"):
+            # a model lock: entering and leaving it is visible, and a scenario may act at a release point
+            # (self.on_release) - that is where another thread can run
+            def release(a, k):
+                self.releases += 1
+                if self.on_release is not None and not self._in_adversary:
+                    self._in_adversary = True
+                    try:
+                        self.on_release(self.releases)
+                    finally:
+                        self._in_adversary = False
+            return Obj(None, {"__enter__": Native(lambda a, k: None, "acquire"), "__exit__": Native(release, "release"),
+                              "acquire": Native(lambda a, k: True, "acquire"), "release": Native(release, "release")}, name=nm)
         if nm.startswith("threading."):
             return Obj(None, name=nm)
         return NotImplemented
@@ -69,6 +85,54 @@ class Engine:
             return self.interp.call(fi, self.obj, list(args))
         except Undecided as e:
             raise AnalysisError(f"{SOCK}.{mname}: cannot interpret: {e}")
+
+
+def registration_survives_cleanup(ctx, repo, rule):
+    """A handler registered by another thread while the engine thread retires a finished handler must still be
+    registered afterwards.  The clean-up is interpreted once per lock-release point it passes; at that point (the
+    only places where another thread can get the lock) the model registers a newcomer through add_receive_handler."""
+    cu = repo.method(SOCK, "_cleanup_handlers")
+    # how many release points does one clean-up pass?
+    e = Engine(repo)
+    done, alive = e.handler("done"), e.handler("alive", can=False)
+    done.attrs["should_remove_handler"] = True
+    for h in (done, alive):
+        e.call("add_receive_handler", h)
+    e.releases = 0
+    try:
+        e.call("_cleanup_handlers")
+    except PyRaise as ex:
+        ctx.ob(rule, f"{cu.qual}::does-not-raise", False, f"{cu.qual} raises {ex.what}", cu.loc)
+        return
+    points = e.releases
+    ctx.floor(rule, f"{cu.qual} lock-release points", points, 1)
+    n = 0
+    for k in range(1, points + 1):
+        e = Engine(repo)
+        done, alive, new = e.handler("done"), e.handler("alive", can=False), e.handler("newcomer", can=True)
+        done.attrs["should_remove_handler"] = True
+        for h in (done, alive):
+            e.call("add_receive_handler", h)
+        e.releases = 0
+
+        def adversary(i, e=e, new=new, k=k):
+            if i == k:
+                e.call("add_receive_handler", new)
+        e.on_release = adversary
+        try:
+            e.call("_cleanup_handlers")
+            e.on_release = None
+            e.calls.clear()
+            e.call("dispatch_recevied_data", b"<PACKT>for the newcomer</PACKT>", ("10.0.0.9", 10022))
+            calls = list(e.calls)
+        except PyRaise as ex:
+            calls = [("raises", ex.what)]
+        n += 1
+        ctx.ob(rule, f"{cu.qual}::registration-at-release-{k}-survives", ("newcomer", "handle") in calls and ("done", "can_handle") not in calls,
+               f"{cu.qual} retiring a finished handler while another thread registers a request right after the clean-up's lock release #{k}: the next datagram makes the calls {calls} - "
+               f"{'the newly registered handler is gone (the list was rebuilt from a copy taken before it was added), its reply is dropped and the request can only time out' if ('newcomer', 'handle') not in calls else 'the finished handler is still asked'}",
+               cu.loc, sample={"rule": rule, "release_point": k, "calls": [str(c) for c in calls]})
+    ctx.count(f"{rule}:clean-up interleavings interpreted", n)
 
 
 def engine_obligations(ctx, repo, r_fifo, r_throttle, r_first, r_iso):
